@@ -469,7 +469,7 @@ pub fn run(tier: Tier) -> i32 {
     let model_err: u64 = st.counters.iter().filter(|(k, _)| k.starts_with("MODEL_ERROR")).map(|(_, v)| *v).sum();
     rep.guard("reference spellings decode to the intended strings", model_err == 0);
     rep.guard("integers, exact-class floats and loose-class floats all occur", ["integer", "exact-class float", "loose-class float"].iter().all(|k| st.outcomes.get(*k).cloned().unwrap_or(0) > 50));
-    rep.rule = "every numeral of the enumerated families (small integers, +-2^p and neighbours for p<=64, range limits, decimals with <= 4 significant digits x exponents, 15/17-digit representatives), every string up to the bound over {a \" \\ / e-acute emoji U+0001 U+2028} in three spellings (bare, in an array, as key and value), malformed texts, D(2,2) documents compact and pretty, duplicate keys; each through from_json -> search('@') -> print -> re-parse and through every Value conversion. non-trivial = value accepted and compared".into();
+    rep.rule = "every numeral of the enumerated families (small integers, +-2^p and neighbours for p<=64, range limits, decimals with <= 4 significant digits x exponents, 15/17-digit representatives), every string up to the bound over {a \" \\ / e-acute emoji U+0001 U+2028} in three spellings (bare, in an array, as key and value), malformed texts, D(2,2) documents compact and pretty, duplicate keys; each through from_json -> search('@') -> print -> re-parse and through every Value conversion. non-trivial = value accepted and compared Size ladder: objects of 2..257 (thorough ..4099) members in 8 (16) fixed key orders with one repeated key at 6 position pairs (last wins) and without, arrays / strings / equal-looking big integers of 31..65537 (131073) elements.".into();
     rep.bounds = json!({"string_len": k, "numerals": nums.len(), "documents": docs.len()});
     rep.assumptions = vec![
         "serde_json::from_str::<Value> and Rust's str::parse::<f64> are the independent readings of a JSON text (trusted base)".into(),
